@@ -2,6 +2,7 @@ from propdefs.common import *
 
 PROP = {
     "bin": "c09",
+    "minimize": True,   # harness implements `--only i --keep p0,p1,..` (notes/minimisation.md)
     "coq_targets": ["theories/Flow/C09Check", "theories/Flow/FixedPointProofs", "theories/Flow/FpILProofs", "theories/Flow/C09Example"],
     "n": {"quick": 1600, "thorough": 40000, "sens": 240},
     "theorems": ["fp_solution", "fp_solution_backward", "fp_forced", "fp_forced_backward", "fp_forced_postfix", "fp_forced_postfix_backward",
